@@ -229,6 +229,7 @@ def exec_align(trace, ctx):
         ctx.violate(P, "fixed-array", "the fixed coordinates given to the optimiser are not the larger molecule's "
                                       f"{'non-hydrogen ' if trace['ignore_h'] else ''}atoms in order")
     ctx.op("align", ("swap" if not start_fixed else "noswap") + ("+H" if trace["ignore_h"] else "") + f":{len(expected)}/{len(given)}")
+    ctx.sig.append((ns, ne, tuple(felem.count(x) for x in ("H",)), tuple(given)))
 
 
 def check_pairs(ctx, pairs, n1, n2, groups, label):
@@ -338,6 +339,7 @@ def exec_guess_protein(trace, ctx):
     ctx.steps += 1
     ctx.nontrivial = True
     ctx.op("guess_protein", "ok")
+    ctx.sig.append((tuple(trace["lens1"]), tuple(trace["lens2"])))
 
 
 def exec_manager(trace, ctx):
@@ -468,5 +470,7 @@ def exec_manager(trace, ctx):
         ctx.violate(P, "aligned-species", f"alignments ran for {sorted(got_names)}, species with both resolutions: "
                                           f"{sorted(names_with_end)}")
     ctx.op("manager", f"ok:{len(calls)}")
+    ctx.sig.append((tuple(sorted((restr or {}).items())) if restr else None, tuple(sorted((deform or {}).items())) if deform else None,
+                    tuple(sorted((ignore or {}).items())) if ignore else None))
     if len(calls) > 1:
         ctx.probe("several_species_routed")
